@@ -1,3 +1,4 @@
+import logging; logging.disable(logging.CRITICAL)
 import os, sys, tempfile
 sys.path.insert(0, os.environ.get("PYVC_REPO_SRC","/repo/src"))
 from dvc_objects.fs.local import LocalFileSystem
